@@ -338,3 +338,132 @@ class make_included_tuples(Contract):
 
 
 C34_FUNCS.append('make_included_tuples')
+
+
+# ---------------------------------------------------------------------------------------------------------------
+# lib_build_and_cache_attr: ONE iteration of the delegation loop over the included libs (loop-body contract; the
+# function is too large for a whole-function contract: what surrounds the loop is not verified here)
+
+dict_lookup = z3.Function('dict_lookup', B64, B64, B64)     # ghost: what PyDict_GetItem(d, k) finds (0: not there)
+
+
+@R.model('PyDict_GetItem', "the value filed under the key, or NULL; no effect, no exception (a function of dict and key here)")
+def _dict_get(ex, st, args, n):
+    return dict_lookup(args[0], args[1])
+
+
+@R.model('PyTuple_GetItem', "member i of the tuple, or NULL with IndexError when i is out of range")
+def _tuple_getitem(ex, st, args, n):
+    t, i = args
+    c = Ctx(ex, {}, st)
+    size = c.field(st, t, 'PyVarObject', 'ob_size')
+    inside = z3.And(i >= 0, i < size)
+    st.err = z3.If(inside, st.err, exc(ex, 'IndexError'))
+    return z3.If(inside, z3.Select(st.heap(ITEMS), t + 24 + 8 * i), BV(0, 64))
+
+
+class lib_attr_rec(Contract):
+    """the recursive call lib_build_and_cache_attr(lib1, name, recursion + 1) -- recorded: an object (not a new
+    reference), or NULL with or without an exception; builds and caches objects in lib1 (memory and object fields may
+    change; the tuples, libs' static tables and the call trace of other events do not)"""
+    name = 'lib_build_and_cache_attr'
+    trusted = True
+    record_calls = True
+
+    def frame(self, c):
+        return Frame(all_raw=True, all_fields=True, err=True, trace=['tmp:arg:libattr:ret'], keep_records=KEEP + ('LibObject',))
+
+    def post(self, c):
+        c.new.ghost['tmp:arg:libattr:ret'] = c.result
+        return [('an exception only with NULL', z3.Implies(c.result != 0, c.new.err == c.old.err))]
+
+
+class int_const_rec(Contract):
+    """ffi_fetch_int_constant(ffi1, name, recursion + 1) -- recorded: a new int object, or NULL with or without an
+    exception"""
+    name = 'ffi_fetch_int_constant'
+    trusted = True
+    record_calls = True
+
+    def frame(self, c):
+        return Frame(all_raw=True, all_fields=True, err=True, trace=['tmp:arg:intconst:ret'], keep_records=KEEP + ('LibObject',))
+
+    def post(self, c):
+        c.new.ghost['tmp:arg:intconst:ret'] = c.result
+        return [('an exception only with NULL', z3.Implies(c.result != 0, c.new.err == c.old.err))]
+
+
+R.add(lib_attr_rec)
+R.add(int_const_rec)
+
+
+class LibIncludeLoop(Contract):
+    """lib.<name> is not one of this module's own globals: ONE step of the search through the included modules, in the
+    order of the include list.  Entry i is the included module's lib (or NULL for an included FFI without a lib, then
+    its ffi is asked for an integer constant)"""
+    name = 'lib_build_and_cache_attr#include-loop'
+    function = 'lib_build_and_cache_attr'
+    loop_ordinal = 0
+
+    def parts(self, c, st):
+        libs = c.local(st, 'included_libs') if False else c['included_libs']
+        i = c['i']
+        lib1 = z3.Select(st.heap(ITEMS), libs + 24 + 8 * i)
+        return libs, i, lib1
+
+    def pre(self, c):
+        st = c.old
+        libs, i, lib1 = self.parts(c, st)
+        ffis = c['included_ffis']
+        return [('the two include tuples are valid', z3.And(c.valid(libs, 24), c.valid(ffis, 24), i >= 0)),
+                ('an included lib is a valid lib object', z3.Implies(lib1 != 0, c.valid(lib1, 64))),
+                ('an entry without a lib has an ffi (make_included_tuples fills both tuples or neither)',
+                 z3.Implies(z3.And(lib1 == 0, i < c.field(st, ffis, 'PyVarObject', 'ob_size')),
+                            z3.Select(st.heap(ITEMS), ffis + 24 + 8 * i) != 0)),
+                ('no-pending-exception', st.err == 0)]
+
+    def frame(self, c):
+        return None
+
+    def _found(self, c, st1, x):
+        st0 = c.old
+        libs, i, lib1 = self.parts(c, st0)
+        cached = dict_lookup(c.field(st0, lib1, 'LibObject', 'l_dict'), c['name'])
+        A = lambda f, k: st1.gvar('tmp:arg:%s:%s' % (f, k), B64)
+        calls = lambda st, f: st.gvar('tmp:calls:' + f, B64)
+        ffi1 = z3.Select(st0.heap(ITEMS), c['included_ffis'] + 24 + 8 * i)
+        rec = z3.SignExt(32, c['recursion'])
+        return z3.If(lib1 != 0,
+                     z3.If(cached != 0,
+                           # the included lib has it cached already
+                           z3.And(x == cached, calls(st1, 'lib_build_and_cache_attr') == calls(st0, 'lib_build_and_cache_attr')),
+                           # or it is built (and cached) in the INCLUDED lib, by the included lib's own tables
+                           z3.And(calls(st1, 'lib_build_and_cache_attr') == calls(st0, 'lib_build_and_cache_attr') + 1,
+                                  A('lib_build_and_cache_attr', 'lib') == lib1, A('lib_build_and_cache_attr', 'name') == c['name'],
+                                  z3.Extract(31, 0, A('lib_build_and_cache_attr', 'recursion')) == c['recursion'] + 1,
+                                  x == st1.gvar('tmp:arg:libattr:ret', B64))),
+                     # an included FFI without lib: only its integer constants
+                     z3.And(calls(st1, 'ffi_fetch_int_constant') == calls(st0, 'ffi_fetch_int_constant') + 1,
+                            A('ffi_fetch_int_constant', 'ffi') == ffi1, x == st1.gvar('tmp:arg:intconst:ret', B64)))
+
+    def post_goto(self, c, label):
+        x = c.local(c.new, 'x')
+        return [("found in included module i: its cached attribute, or what building it in THAT lib gives, or that ffi's integer "
+                 "constant -- the included module's own object", z3.And(x != 0, self._found(c, c.new, x)))]
+
+    def post(self, c):
+        st0, st1 = c.old, c.new
+        libs, i, lib1 = self.parts(c, st0)
+        cached = dict_lookup(c.field(st0, lib1, 'LibObject', 'l_dict'), c['name'])
+        return [('the search goes on to module i + 1 only if module i has no such attribute, and without an exception',
+                 z3.And(st1.err == 0, z3.Implies(lib1 != 0, cached == 0), c.local(st1, 'i') == i + 1)),
+                ('and module i was asked', z3.If(lib1 != 0,
+                                                 st1.gvar('tmp:calls:lib_build_and_cache_attr', B64) == st0.gvar('tmp:calls:lib_build_and_cache_attr', B64) + 1,
+                                                 st1.gvar('tmp:calls:ffi_fetch_int_constant', B64) == st0.gvar('tmp:calls:ffi_fetch_int_constant', B64) + 1))]
+
+    def post_return(self, c):
+        return [('the search stops without a result only with an exception', z3.And(c.result == 0, c.new.err != 0))]
+
+
+R.contracts[LibIncludeLoop.name] = LibIncludeLoop()
+C34_FUNCS.append(LibIncludeLoop.name)
